@@ -274,8 +274,10 @@ def run(pid, tier, seed, update_lock=False, verbose=False, only=None):
         ),
         assumptions=ENCODING_ASSUMPTIONS + list(getattr(pm, 'ASSUMPTIONS', [])) + assumes,
         wall_s=round(wall, 2), violations=len(violations))
-    os.makedirs(os.path.join(ROOT, 'evidence'), exist_ok=True)
-    with open(os.path.join(ROOT, 'evidence', pid + '.json'), 'w') as fh:
+    # runs against a scratch copy of the sources (BSVC_REPO) or a subset (--only) never overwrite the registered evidence
+    evdir = os.path.join(ROOT, 'evidence') if (repo_root() == '/repo' and not only) else os.path.join(ROOT, 'out', 'evidence-scratch')
+    os.makedirs(evdir, exist_ok=True)
+    with open(os.path.join(evdir, pid + '.json'), 'w') as fh:
         json.dump(ev, fh, indent=1, default=str)
     if update_lock and not errors and not undecided:
         lk = load_lock()
